@@ -40,6 +40,7 @@ import SwcVerif.Model.AlgoRunRepair
 import SwcVerif.Model.AlgoRunAsc
 import SwcVerif.Model.Assemble
 import SwcVerif.Model.AlgoRunBranchTree
+import SwcVerif.Model.AlgoRunWriter
 
 def dispatch (op : String) (args : List String) : String :=
   match op with
@@ -107,6 +108,7 @@ def dispatch (op : String) (args : List String) : String :=
   | "swcline" => SwcText.handleLine args
   | "swcread" => SwcText.handleRead args
   | "swcwrite" => SwcText.handleWrite args
+  | "gswcwrite" | "gioswc" => AlgoRun.handleWriter op args
   | _ => "bad-op"
 
 partial def loop (h : IO.FS.Stream) (out : IO.FS.Stream) : IO Unit := do
